@@ -201,9 +201,9 @@ PROPS = {
         "lean": "Originium.Props.C17",
         "suites": ["key", "skiplist"],
         "skeleton_funcs": [],
-        "trusted_base": COMMON_TB + ["the pointer relinking of Set/Delete is abstracted to 'level i lists the nodes of height > i in key order' (tied by the suite only)"],
+        "trusted_base": COMMON_TB + ["the pointer model identifies an element by its key and bounds its loops by a fuel argument; Go pointers, allocation and the garbage collector are not modelled"],
         "assumptions": ["keys are versioned keys key@ts; CompareKeys on them is the (user asc, ts desc) order (Key.compareKeys_keyWithTs, suite key)"],
-        "explanation": "level-descending search proved to find the first node >= target for all heights; refinement to a sorted association list",
+        "explanation": "pointer-level model of Set/Delete/Get/LowerBound/Scan/All (next pointers, update array, relinking, s.level) proved to represent the tower list; level-descending search proved to find the first node >= target for all heights; refinement to a sorted association list",
     },
 }
 
